@@ -147,11 +147,11 @@ func c04R2(a *A, r *Roles) {
 		key := fmt.Sprintf("pos-advance@commit[field=%s#%d]", f, n)
 		ok := false
 		for _, e := range edges {
-			if edgeDominated(e[0].(*ssa.BasicBlock), e[1].(int), s.Store.Block()) {
+			if edgeDominated(e[0].(*ssa.BasicBlock), e[1].(int), s.block()) {
 				ok = true
 			}
 		}
-		a.check(ok, rule, key, a.W.posOf(s.Store),
+		a.check(ok, rule, key, a.W.posOf(s.instr()),
 			"write of the position cell is dominated by the handler-accepted edge",
 			"the position cell is advanced before the handler has accepted the transaction and is not restored on its error: after a handler failure the parser returns (and Stream stores) a position past the failed transaction, so it is never redelivered")
 	}
@@ -163,18 +163,18 @@ func c04R3(a *A, r *Roles, ar *Arms) {
 	const rule = "C04-R3"
 	n := map[string]int{}
 	for _, s := range r.Pos.stores() {
-		pos := a.W.posOf(s.Store)
+		pos := a.W.posOf(s.instr())
 		switch s.Fn {
 		case r.Commit:
 			n["commit"]++
 			a.hold(rule, fmt.Sprintf("pos-writer@commit#%d", n["commit"]), pos, "commit closure writes %s", s.Field)
 		case r.Parser:
-			lab := ar.label(s.Store.Block())
+			lab := ar.label(s.block())
 			n[lab]++
 			key := fmt.Sprintf("pos-writer@parser[arm=%s#%d]", lab, n[lab])
 			switch lab {
 			case "init":
-				c, _ := s.Store.Val.(*ssa.Call)
+				c, _ := s.val().(*ssa.Call)
 				ok := c != nil && c.Common().StaticCallee() == r.GetPos
 				a.check(ok, rule, key, pos, "initialised from the stored position", "position cell initialised from something other than the stored position")
 			case "IsRotate":
@@ -183,6 +183,28 @@ func c04R3(a *A, r *Roles, ar *Arms) {
 				a.viol(rule, key, pos, "the position cell is written in arm %q; only its initialisation, the commit closure and the rotate arm may move the resume position", lab)
 			}
 		default:
+			// the constructor of the state object, called by the parser before its loop, initialises the cell
+			if r.StateT != nil && s.At == nil {
+				isCtor := false
+				instrs(s.Fn, func(in ssa.Instruction) {
+					if al, ok := in.(*ssa.Alloc); ok && types.Identical(al.Type().(*types.Pointer).Elem(), r.StateT) {
+						isCtor = true
+					}
+				})
+				calledInInit := false
+				instrs(r.Parser, func(in ssa.Instruction) {
+					if c, ok := in.(*ssa.Call); ok && c.Common().StaticCallee() == s.Fn && ar.label(c.Block()) == "init" {
+						calledInInit = true
+					}
+				})
+				if isCtor && calledInInit {
+					n["init"]++
+					c, _ := s.val().(*ssa.Call)
+					ok := c != nil && c.Common().StaticCallee() == r.GetPos
+					a.check(ok, rule, fmt.Sprintf("pos-writer@parser[arm=init#%d]", n["init"]), pos, "initialised from the stored position", "position cell initialised from something other than the stored position")
+					continue
+				}
+			}
 			n["other"]++
 			a.viol(rule, fmt.Sprintf("pos-writer@%s#%d", s.Fn.Name(), n["other"]), pos, "the position cell is written by %s", fnName(s.Fn))
 		}
@@ -190,8 +212,8 @@ func c04R3(a *A, r *Roles, ar *Arms) {
 	// a decoded rotation always moves the cell (otherwise the kept position names the old file)
 	rot := map[*ssa.BasicBlock]bool{}
 	for _, s := range r.Pos.stores() {
-		if s.Fn == r.Parser && ar.of[s.Store.Block()]["IsRotate"] && s.Field != "Offset" {
-			rot[s.Store.Block()] = true
+		if s.Fn == r.Parser && ar.of[s.block()]["IsRotate"] && s.Field != "Offset" {
+			rot[s.block()] = true
 		}
 	}
 	for _, p := range ar.Preds {
